@@ -4,6 +4,7 @@ import GsModel.Ops.Regen
 import GsModel.Text.Escape
 import GsModel.Ops.Gather
 import GsModel.Sec.Serve
+import GsModel.Params.Bind
 /-
   Model driver: one JSON request per line on stdin, one JSON response per line on stdout.
   Imports no Mathlib (compiled as `lean_exe gsdriver`).
@@ -99,6 +100,44 @@ def handleSec (j : Json) : Json :=
   | .handler none => Json.mkObj [("r", Json.str "ok"), ("out", Json.str "handler"), ("principal", Json.null)]
   | .reject c => Json.mkObj [("r", Json.str "ok"), ("out", Json.str "reject"), ("status", Json.num c)]
 
+def optNat (j : Json) (k : String) : Option Nat :=
+  match j.getObjVal? k with
+  | .ok .null => none
+  | .ok v => (v.getNat?).toOption
+  | .error _ => none
+
+def pspec (j : Json) : Params.PSpec :=
+  let ty : Params.PType := match Diff.J.str j "ty" with
+    | "int32" => .int 32
+    | "int64" => .int 64
+    | "bool" => .bool
+    | _ => .str
+  { required := Diff.J.bool j "required", isArray := Diff.J.bool j "isArray", cf := Diff.J.str j "cf", ty := ty,
+    v := { minLen := optNat j "minLen", maxLen := optNat j "maxLen", enumS := Diff.J.strs j "enumS",
+           minI := Diff.J.optInt j "minI", exMin := Diff.J.bool j "exMin", maxI := Diff.J.optInt j "maxI", exMax := Diff.J.bool j "exMax",
+           enumI := (Diff.J.arr j "enumI").filterMap (fun x => x.getInt?.toOption) },
+    minItems := optNat j "minItems", maxItems := optNat j "maxItems", unique := Diff.J.bool j "unique" }
+
+def valJson : Params.Val → Json
+  | .s x => Json.mkObj [("s", Json.str x)]
+  | .i x => Json.mkObj [("i", Json.num (Lean.JsonNumber.fromInt x))]
+  | .b x => Json.mkObj [("b", Json.bool x)]
+
+def boundJson : Params.Bound → Json
+  | .absent => Json.mkObj [("k", Json.str "absent")]
+  | .reject => Json.mkObj [("k", Json.str "reject")]
+  | .one v => Json.mkObj [("k", Json.str "one"), ("v", valJson v)]
+  | .many vs => Json.mkObj [("k", Json.str "many"), ("v", Json.arr (vs.map valJson).toArray)]
+
+/-- {"op":"param.bind","spec":{..},"raw":null|[s..]} → {"gen":Bound,"ref":Bound} -/
+def handleBind (j : Json) : Json :=
+  let p := pspec ((j.getObjVal? "spec").toOption.getD .null)
+  let raw : Option (List Params.Str) :=
+    match j.getObjVal? "raw" with
+    | .ok (.arr a) => some (a.toList.map (fun x => (x.getStr?.toOption.getD "").toList))
+    | _ => none
+  Json.mkObj [("r", Json.str "ok"), ("gen", boundJson (Params.bindGen p raw)), ("ref", boundJson (Params.bindRef p raw))]
+
 def handle (line : String) : Json :=
   match Json.parse line with
   | .error e => Json.mkObj [("r", Json.str "bad-input"), ("why", Json.str e)]
@@ -110,6 +149,7 @@ def handle (line : String) : Json :=
     | "text.escape" => handleEscape j
     | "ops.gather" => handleGather j
     | "sec.serve" => handleSec j
+    | "param.bind" => handleBind j
     | op => Json.mkObj [("r", Json.str "bad-op"), ("op", Json.str op)]
 
 partial def loop (h : IO.FS.Stream) (out : IO.FS.Stream) : IO Unit := do
